@@ -8,6 +8,15 @@ RLH = os.path.join(HARNESS, "target", "debug", "rlh")
 WORK = os.path.join(VERIF, "work")
 
 
+class ToolError(Exception):
+    pass
+
+
+def tail_nonbeh(out, n=40):
+    lines = [l for l in out.splitlines() if not l.startswith('<<"BEH"')]
+    return "\n".join(lines[-n:])
+
+
 def sh(cmd, timeout=None, env=None, cwd=None):
     e = dict(os.environ)
     if env:
@@ -104,12 +113,17 @@ def run_harness(scripts, wd, name="t", shards=8, timeout=900):
     return traces, bad
 
 
+TLA_CP = "/opt/veriftools/tla/tla2tools.jar:/opt/veriftools/tla/CommunityModules-deps.jar"
+
+
 def tlc_trace(module, trace, out_json, wd, timeout=900):
+    """One TLC process folding a trace spec over one trace file (serial GC: many run side by side)."""
     meta = os.path.join(wd, "meta-" + os.path.basename(out_json))
-    env = {"TRACE": trace, "OUT": out_json,
-           "JAVA_TOOL_OPTIONS": "-Xss1g -Dtlc2.tool.queue.IStateQueue=StateDeque"}
-    cmd = "timeout %d tlc -workers 1 -metadir %s -cleanup -noGenerateSpecTE -config %s.cfg %s.tla" % (
-        timeout, meta, module, module)
+    env = {"TRACE": trace, "OUT": out_json}
+    cmd = ("timeout %d java -XX:+UseSerialGC -Xss512m -Xmx3g -XX:CICompilerCount=2 "
+           "-Dtlc2.tool.queue.IStateQueue=StateDeque -cp %s tlc2.TLC "
+           "-workers 1 -metadir %s -cleanup -noGenerateSpecTE -config %s.cfg %s.tla") % (
+        timeout, TLA_CP, meta, module, module)
     return subprocess.Popen(cmd, shell=True, cwd=SPEC, env={**os.environ, **env},
                             stdout=subprocess.PIPE, stderr=subprocess.STDOUT), meta
 
